@@ -1,0 +1,14 @@
+//go:build verif
+
+package streamwriter
+
+import "time"
+
+// This file is compiled only with the "verif" build tag.
+
+// VerifShiftSignatureClock makes the clock that signature timestamps are taken from
+// (time since signatureReferenceDate) appear shifted by d from now on: a negative d
+// is a wall clock that has been stepped backwards. It must be called while no write is in progress.
+func VerifShiftSignatureClock(d time.Duration) {
+	signatureReferenceDate = signatureReferenceDate.Add(-d)
+}
